@@ -5,12 +5,27 @@ Import ListNotations.
 From TV Require Import Lib.Obs Lib.C21_Pct C21.Model C21.Run C22.Tables C22.Model.
 Local Open Scope N_scope.
 
+(* extra_params as the harness can build it: a str, or one of three families of callables *)
+Inductive xspec :=
+| XSStr (s : list N)                   (* a str *)
+| XSConst (s : list N)                 (* lambda href: s *)
+| XSPrefix (pfx a b : list N)          (* lambda href: a if href.startswith(pfx) else b   (the docstring example) *)
+| XSWrap (a b : list N).               (* lambda href: a + href + b *)
+
+Definition extra_of (x : xspec) : extra :=
+  match x with
+  | XSStr s => XStr s
+  | XSConst s => XCall (fun _ => s)
+  | XSPrefix pfx a b => XCall (fun h => if starts_with pfx h then a else b)
+  | XSWrap a b => XCall (fun h => a ++ h ++ b)
+  end.
+
 Inductive c22_in :=
-| ILink (v : sval) (shorten : bool) (extra : list N) (require : bool) (permitted : list (list N))
+| ILink (v : sval) (shorten : bool) (extra : xspec) (require : bool) (permitted : list (list N))
 | IClass (c : N).        (* re.match of \w and of \s on chr(c) *)
 
-Definition mk_opts (sh : bool) (extra : list N) (req : bool) (perms : list (list N)) : opts :=
-  {| o_shorten := sh; o_extra := extra; o_require := req; o_permitted := perms |}.
+Definition mk_opts (sh : bool) (extra : xspec) (req : bool) (perms : list (list N)) : opts :=
+  {| o_shorten := sh; o_extra := extra_of extra; o_require := req; o_permitted := perms |}.
 
 Definition run_case (i : c22_in) : obs :=
   match i with
@@ -101,8 +116,15 @@ Fixpoint walk (o : opts) (toks : list token) (e : list N) : bool :=
   | _ => false
   end.
 
-Definition extra_ok (extra : list N) : bool :=
-  forallb (fun c => negb ((c =? 60) || (c =? 62))) extra.
+Definition no_angle_b (s : list N) : bool := forallb (fun c => negb ((c =? 60) || (c =? 62))) s.
+(* the caller-supplied raw HTML brings no angle bracket of its own *)
+Definition extra_ok (x : xspec) : bool :=
+  match x with
+  | XSStr s => no_angle_b s
+  | XSConst s => no_angle_b s
+  | XSPrefix _ a b => no_angle_b a && no_angle_b b
+  | XSWrap a b => no_angle_b a && no_angle_b b
+  end.
 
 Definition check_case (i : c22_in) (ob : obs) : bool :=
   match i with
